@@ -595,130 +595,114 @@ def rule_greens_function(rep: Report, repo: Repo):
         raise AnalysisError(R, "greens_function closure not found")
     f = f[0]
     param = f.args.args[0].arg
-    g = CFG(f)
-    dom = g.dominators()
-    # X: the name that receives P @ <param> (the parameter itself may be rebound)
-    proj = [n for n in g.nodes if isinstance(n.ast, ast.Assign) and len(n.ast.targets) == 1 and isinstance(n.ast.targets[0], ast.Name)
-            and norm(n.ast.value) == f"kernel_projector @ {param}"]
-    if len(proj) > 1:
-        raise AnalysisError(R, f"greens_function: {len(proj)} assignments of `kernel_projector @ {param}`")
-    if not proj:
-        uses_proj = any(isinstance(n_, ast.BinOp) and isinstance(n_.op, ast.MatMult) and norm(n_.left) == "kernel_projector"
-                        and any(isinstance(x, ast.Name) and x.id == param for x in ast.walk(n_.right)) for n_ in own_nodes(f))
-        if uses_proj:
-            raise AnalysisError(R, "greens_function: the projection of the right-hand side has an unrecognised form")
-        rep.fail(R, "linalg::direct_greens_function::greens_function projects the right-hand side before the solve",
-                 f"`kernel_projector @ {param}` does not occur: (E - H) x = v is solved with the kernel component still in v", loc(f))
-        return
-    X = proj[0].ast.targets[0].id
-    solve_calls = [c for c in own_nodes(f) if isinstance(c, ast.Call) and call_name(c) == "solve"]
-    solves = [n for n in g.nodes if n.ast is not None and not isinstance(n.ast, ast.FunctionDef)
-              and any(isinstance(c, ast.Call) and call_name(c) == "solve" for c in ast.walk(n.ast))]
-    rep.floor(R, "calls of the factorised solve", len(solves), 1)
+    # The closure is evaluated symbolically in the four cases (right-hand side complex?, factorisation complex?); what it
+    # returns is compared, as an expression tree, with  P @ solve(Z)  resp.  P @ (solve(Z.real) + 1j * solve(Z.imag)),
+    # Z = the projected right-hand side with the pivot rows set to zero.
+    from .straight import run as _run, setitem as _setitem
+    PV = f"kernel_projector @ {param}"
 
-    busy = set()
-
-    def derived(e, depth=0):
-        """True if the expression is the projected right-hand side X, its real / imaginary part, or an element of a tuple of
-        those; None if not understood."""
-        if depth > 6:
+    def rhs_form(e):
+        """How a solve() argument is made from the right-hand side `param`: 'ok' = P @ v with the pivot rows zeroed afterwards,
+        'no-zero', 'zero-first', 'no-projection'; None if it is something else.  Copies are transparent."""
+        def peel(x):
+            zeroed = False
+            while True:
+                if isinstance(x, ast.Call) and isinstance(x.func, ast.Attribute) and x.func.attr == "copy" and not x.args:
+                    x = x.func.value
+                elif isinstance(x, ast.Call) and call_name(x) in ("np.array", "np.asarray", "np.copy") and len(x.args) == 1:
+                    x = x.args[0]
+                elif isinstance(x, ast.Call) and call_name(x) == "_setitem" and norm(x.args[1]) == "pivot_rows" and norm(x.args[2]) in ("0", "0.0"):
+                    zeroed, x = True, x.args[0]
+                else:
+                    return x, zeroed
+        x, zero_after = peel(e)
+        if isinstance(x, ast.BinOp) and isinstance(x.op, ast.MatMult) and norm(x.left) == "kernel_projector":
+            y, zero_before = peel(x.right)
+            if isinstance(y, ast.Name) and y.id == param:
+                return "ok" if zero_after else ("zero-first" if zero_before else "no-zero")
             return None
-        if isinstance(e, ast.Attribute) and e.attr in ("real", "imag"):
-            return derived(e.value, depth + 1)
-        if isinstance(e, (ast.Tuple, ast.List)):
-            r = [derived(x, depth + 1) for x in e.elts]
-            return None if None in r else all(r)
-        if isinstance(e, ast.IfExp):
-            r = [derived(e.body, depth + 1), derived(e.orelse, depth + 1)]
-            return None if None in r else all(r)
-        if isinstance(e, ast.BinOp) and norm(e) == f"kernel_projector @ {param}":
-            return True
-        if isinstance(e, ast.Name):
-            if e.id in busy:
-                return True  # a rebinding in terms of itself: decided by the other definitions
-            srcs = []
-            for n in own_nodes(f):
-                if isinstance(n, ast.Assign) and any(isinstance(t, ast.Name) and t.id == e.id for t in n.targets):
-                    srcs.append(n.value)
-                if isinstance(n, (ast.For, ast.comprehension)) and isinstance(n.target, ast.Name) and n.target.id == e.id:
-                    srcs.append(n.iter)
-            if not srcs:
-                return False if e.id == param and X != param else None
-            busy.add(e.id)
-            try:
-                r = [derived(v, depth + 1) for v in srcs]
-            finally:
-                busy.discard(e.id)
-            return None if None in r else all(r)
+        if isinstance(x, ast.Name) and x.id == param:
+            return "no-projection"
         return None
-    verdicts = [derived(c.args[0]) if len(c.args) == 1 else None for c in solve_calls]
-    if None in verdicts:
-        raise AnalysisError(R, "greens_function: the argument of `solve` could not be traced to the projected right-hand side")
-    ok = all(verdicts) and all(proj[0].id in dom[s_.id] for s_ in solves)
-    rep.check(ok, R, "linalg::direct_greens_function::greens_function projects the right-hand side before the solve",
-              f"(E - H) x = P v: every solve() argument derives from `{X} = kernel_projector @ {param}`", loc(f))
-    piv = [n for n in g.nodes if isinstance(n.ast, ast.Assign) and norm(n.ast) == f"{X}[pivot_rows] = 0"]
-    ok = bool(piv) and all(any(p_.id in dom[s_.id] for p_ in piv) for s_ in solves) and \
-        all(proj[0].id in dom[p_.id] for p_ in piv)
-    rep.check(ok, R, "linalg::direct_greens_function::greens_function zeroes the pivot rows after projecting and before the solve",
-              "the constrained equations x[pivot] = 0 need a zero right-hand side", loc(f))
-    rets = [n for n in own_nodes(f) if isinstance(n, ast.Return)]
-    ok = len(rets) == 1 and isinstance(rets[0].value, ast.BinOp) and isinstance(rets[0].value.op, ast.MatMult) \
-        and norm(rets[0].value.left) == "kernel_projector"
-    rep.check(ok, R, "linalg::direct_greens_function::greens_function returns the solution projected onto range(P)",
-              norm(rets[0]) if rets else "", loc(f))
-    # real/imag split: chosen exactly for a complex right-hand side with a real factorisation; recombined as re + i*im
-    from .sem import canon as _canon, outcomes as _outcomes
-    from .paths import eval_bool as _eb
-    table = {}
+
+    def strip_part(e):
+        return e.value if isinstance(e, ast.Attribute) and e.attr in ("real", "imag") else e
+
+    results = {}
     for rhs_complex in (False, True):
         for fact_complex in (False, True):
-            def atom(n):
-                t = norm(_canon(n))
-                if t == "is_complex":
+            def atom(n, rhs_complex=rhs_complex, fact_complex=fact_complex):
+                if norm(n) == "is_complex":
                     return fact_complex
-                if isinstance(n, ast.Call) and call_name(n) == "np.iscomplexobj" and len(n.args) == 1 and derived(n.args[0]) is True:
-                    return rhs_complex
+                if isinstance(n, ast.Call) and call_name(n) == "np.iscomplexobj" and len(n.args) == 1:
+                    if rhs_form(strip_part(n.args[0])) is not None:
+                        return rhs_complex
+                    if norm(n.args[0]) == "mat.data":
+                        return fact_complex
                 return None
-            kinds = set()
-            from .e7b import _pick_ifexp
-            for o in _outcomes(f.body, None, env={}, atom=atom, expand=False):
-                for kind, st, rv in o.seq:
-                    if kind == "assign" and rv is not None:
-                        rv = _pick_ifexp(rv, atom)
-                    if kind == "assign" and isinstance(rv, ast.Tuple):
-                        parts = [x for x in rv.elts]
-                        if len(parts) == 2 and all(isinstance(x, ast.Attribute) for x in parts) and [x.attr for x in parts] == ["real", "imag"]:
-                            kinds.add("split")
-                        elif len(parts) == 1:
-                            kinds.add("single")
-                        else:
-                            kinds.add("other:" + norm(rv)[:40])
-            table[(rhs_complex, fact_complex)] = sorted(kinds)
-    want = {(False, False): ["single"], (False, True): ["single"], (True, True): ["single"], (True, False): ["split"]}
-    # recombination: one solution is returned as it is, two as re + 1j * im
-    comb = {}
-    for n_sol in (1, 2):
-        def atom2(n, n_sol=n_sol):
-            if isinstance(n, ast.Compare) and len(n.ops) == 1 and isinstance(n.left, ast.Call) and call_name(n.left) == "len" \
-                    and isinstance(n.comparators[0], ast.Constant) and isinstance(n.comparators[0].value, int):
-                k = n.comparators[0].value
-                return {ast.Eq: n_sol == k, ast.NotEq: n_sol != k, ast.Gt: n_sol > k, ast.Lt: n_sol < k, ast.GtE: n_sol >= k,
-                        ast.LtE: n_sol <= k}.get(type(n.ops[0]))
-            return None
-        vals = set()
-        len_names = {c.args[0].id for c in own_nodes(f) if isinstance(c, ast.Call) and call_name(c) == "len" and len(c.args) == 1
-                     and isinstance(c.args[0], ast.Name)}
-        for o in _outcomes(f.body, None, env={}, atom=atom2, expand=False, opaque=(X, *len_names)):
-            if o.kind == "return" and isinstance(o.value, ast.BinOp) and isinstance(o.value.op, ast.MatMult) and norm(o.value.left) == "kernel_projector":
-                vals.add(norm(_pick_ifexp(o.value.right, atom2)))
-        comb[n_sol] = sorted(vals)
-    import re as _re2
-    m1 = _re2.fullmatch(r"(.+)\[0\]", comb[1][0]) if len(comb[1]) == 1 else None
-    ok_comb = bool(m1) and comb[2] == [f"{m1.group(1)}[0] + 1j * {m1.group(1)}[1]"]
-    rep.check(table == want and ok_comb, R,
+            results[(rhs_complex, fact_complex)] = _run(f, atom, R)
+    n_solve = 0
+    flaws = {"projection": set(), "pivot": set(), "range": set(), "split": set()}
+    for (rhs_complex, fact_complex), t in results.items():
+        case = f"rhs {'complex' if rhs_complex else 'real'}, factorisation {'complex' if fact_complex else 'real'}"
+        calls = [c for c in ast.walk(t) if isinstance(c, ast.Call) and call_name(c) == "solve"]
+        n_solve += len(calls)
+        if not calls:
+            raise AnalysisError(R, f"greens_function [{case}]: the result `{norm(t)[:80]}` does not call the factorised solve")
+        for c in calls:
+            if len(c.args) != 1 or c.keywords:
+                raise AnalysisError(R, f"greens_function: call `{norm(c)[:60]}` not understood")
+            form = rhs_form(strip_part(c.args[0]))
+            if form is None:
+                raise AnalysisError(R, "greens_function: the argument of `solve` could not be traced to the projected right-hand side: "
+                                       f"`{norm(c.args[0])[:90]}`")
+            if form == "no-projection":
+                flaws["projection"].add(f"[{case}] solve({norm(c.args[0])[:60]})")
+            elif form in ("no-zero", "zero-first"):
+                flaws["pivot"].add(f"[{case}] solve({norm(c.args[0])[:70]}): " + ("pivot rows not zeroed" if form == "no-zero" else
+                                                                               "pivot rows zeroed before the projection, which fills them again"))
+        if not (isinstance(t, ast.BinOp) and isinstance(t.op, ast.MatMult) and norm(t.left) == "kernel_projector"):
+            flaws["range"].add(f"[{case}] returns `{norm(t)[:80]}`")
+            continue
+        sol = t.right
+        args = [norm(c.args[0]) for c in calls]
+        bases = {norm(strip_part(c.args[0])) for c in calls}
+        if len(bases) != 1:
+            raise AnalysisError(R, f"greens_function [{case}]: solves of different right-hand sides {sorted(bases)}")
+        B = bases.pop()
+        Bn = ast.parse(B, mode="eval").body
+        single = f"solve({B})"
+        re_, im_ = (norm(ast.Call(func=ast.Name(id="solve", ctx=ast.Load()), args=[ast.Attribute(value=Bn, attr=a_, ctx=ast.Load())], keywords=[]))
+                    for a_ in ("real", "imag"))
+        split_forms = (f"{re_} + 1j * {im_}", f"{re_} + {im_} * 1j", f"1j * {im_} + {re_}", f"{im_} * 1j + {re_}")
+        want_split = rhs_complex and not fact_complex
+        got = norm(sol)
+        if got == single:
+            kind = "single"
+        elif got in split_forms:
+            kind = "split"
+        elif all(a_ in (B, re_[6:-1], im_[6:-1]) for a_ in args):
+            kind = "other"  # the right solves, combined in another way
+        else:
+            raise AnalysisError(R, f"greens_function [{case}]: solution `{got[:90]}` not understood")
+        if kind != ("split" if want_split else "single"):
+            flaws["split"].add(f"[{case}] solution is `{got[:90]}`; expected " +
+                               ("solve(re) + 1j * solve(im)" if want_split else "one solve of the right-hand side"))
+    rep.floor(R, "calls of the factorised solve", n_solve, 4)
+    rep.check(not flaws["projection"], R, "linalg::direct_greens_function::greens_function projects the right-hand side before the solve",
+              "; ".join(sorted(flaws["projection"])) or f"(E - H) x = P v: every solve() argument derives from `{PV}`, in all four cases", loc(f))
+    rep.check(not flaws["pivot"], R, "linalg::direct_greens_function::greens_function zeroes the pivot rows after projecting and before the solve",
+              "; ".join(sorted(flaws["pivot"])) or "the constrained equations x[pivot] = 0 need a zero right-hand side", loc(f))
+    rep.check(not flaws["range"], R, "linalg::direct_greens_function::greens_function returns the solution projected onto range(P)",
+              "; ".join(sorted(flaws["range"])), loc(f))
+    rep.check(not flaws["split"], R,
               "linalg::direct_greens_function::greens_function complex right-hand side with a real factorisation: solve real and imaginary parts, recombine as re + i*im",
-              f"split chosen for (rhs complex, factorisation complex): {table}; recombination {comb}", loc(f))
+              "; ".join(sorted(flaws["split"])) or "split exactly for (rhs complex, factorisation real)", loc(f))
+    # `is_complex` is what the factorisation is: complex iff the constrained matrix has complex entries
+    ic = [n for n in own_nodes(outer) if isinstance(n, ast.Assign) and norm(n.targets[0]) == "is_complex"]
+    if ic:
+        rep.check(len(ic) == 1 and norm(ic[0].value) in ("np.iscomplexobj(mat.data)", "np.iscomplexobj(mat)"), R,
+                  "linalg::direct_greens_function `is_complex` tells whether the factorised matrix is complex", norm(ic[0].value), loc(ic[0]))
     # matrix orientation E - H, projector arguments
     mats = [n for n in own_nodes(outer) if isinstance(n, ast.Assign) and norm(n.targets[0]) == "mat"]
     ok = bool(mats) and isinstance(mats[0].value, ast.BinOp) and isinstance(mats[0].value.op, ast.Sub) and norm(mats[0].value.right) == "h" \
@@ -739,20 +723,22 @@ def rule_greens_function(rep: Report, repo: Repo):
     from .resolve import env_at as _env_at, rtext as _rtext
     from .sem import canon as _canon2
     masks = [n for n in own_nodes(cm) if isinstance(n, ast.Assign) and isinstance(n.targets[0], ast.Subscript)
-             and norm(n.targets[0].slice) == "pivot_rows" and norm(n.value) == "True" and isinstance(n.targets[0].value, ast.Name)]
+             and norm(n.targets[0].slice) == "pivot_rows" and norm(n.value) in ("True", "False") and isinstance(n.targets[0].value, ast.Name)]
     if len(masks) != 1:
-        raise AnalysisError(R, "_constrain_matrix: marking of the pivot rows (`mask[pivot_rows] = True`) not found")
+        raise AnalysisError(R, "_constrain_matrix: marking of the pivot rows (`mask[pivot_rows] = True / False`) not found")
     M = masks[0].targets[0].value.id
+    marks_pivots = norm(masks[0].value) == "True"
     minit = [n for n in own_nodes(cm) if isinstance(n, ast.Assign) and any(norm(t) == M for t in n.targets)]
     C = "sparse.csr_array(mat)"
-    ok_mask = len(minit) == 1 and _rtext(minit[0].value, _env_at(minit[0], cm)) in (f"np.zeros({C}.shape[0], dtype=bool)", "np.zeros(mat.shape[0], dtype=bool)")
+    fill = "zeros" if marks_pivots else "ones"  # the mask starts as the opposite of what the pivot rows are set to
+    ok_mask = len(minit) == 1 and _rtext(minit[0].value, _env_at(minit[0], cm)) in (f"np.{fill}({C}.shape[0], dtype=bool)", f"np.{fill}(mat.shape[0], dtype=bool)")
     rets_cm = [n for n in own_nodes(cm) if isinstance(n, ast.Return)]
     nonempty = [r_ for r_ in rets_cm if r_ is cm.body[-1]]
     early = [r_ for r_ in rets_cm if r_ is not cm.body[-1]]
     if len(nonempty) != 1:
         raise AnalysisError(R, "_constrain_matrix: final return not found")
     COO = f"{C}.tocoo(copy=False)"
-    KEEP = f"~{M}[{COO}.row]"
+    KEEP = f"~{M}[{COO}.row]" if marks_pivots else f"{M}[{COO}.row]"  # rows that are NOT pivots
     want_ret = (f"sparse.csr_array((np.concatenate(({COO}.data[{KEEP}], np.ones(len(pivot_rows), dtype={C}.dtype))), "
                 f"(np.concatenate(({COO}.row[{KEEP}], pivot_rows)), np.concatenate(({COO}.col[{KEEP}], pivot_rows)))), shape={C}.shape)")
     got_ret = _rtext(nonempty[0].value, _env_at(nonempty[0], cm))
